@@ -90,3 +90,79 @@ def run_scenario(scn, timeout=150):
     finally:
         prj.cleanup()
     return obs
+
+
+# ----------------------------------------------------------------------------- invariant tests
+# contract C { uint v; function set(uint a, uint b) { require((a <op> K) == C1); v = b <op2> K2; }
+#              function get() returns (uint) { return v; } }
+# contract T { C c; function setUp() { c = new C(); } function invariant_ok() { assert(c.get() != BAD); } }
+# The only violating sequence of depth 1 is C.set(a0, b0) with a0 = op^-1(C1), b0 = op2^-1(BAD): the
+# require() on `a` is a condition of the FIRST transaction's path on an input that never reaches the
+# state; the assertion fails on the path of the invariant call, which extends the sliced path of set().
+
+def inv_contracts(t):
+    from harness.asm import assemble, creation_code
+    from harness.l3 import sel_int
+
+    c_items = dispatcher([("set(uint256,uint256)", "SET"), ("get()", "GET")]) + [("label", "SET"), "POP", ("push", 4), "CALLDATALOAD"]
+    if OPS[t["op"]]:
+        c_items += [("push", t["k"]), OPS[t["op"]]]
+    c_items += [("push", apply_op(t["op"], t["a0"], t["k"])), "EQ", ("ref", "SET_OK"), "JUMPI", "PUSH0", "PUSH0", "REVERT",
+                ("label", "SET_OK"), ("push", 0x24), "CALLDATALOAD"]
+    if OPS[t["op2"]]:
+        c_items += [("push", t["k2"]), OPS[t["op2"]]]
+    c_items += ["PUSH0", "SSTORE", "STOP",
+                ("label", "GET"), "POP", "PUSH0", "SLOAD", "PUSH0", "MSTORE", ("push", 32), "PUSH0", "RETURN"]
+    c_rt = assemble(c_items)
+    c_cr = creation_code(c_rt)
+    bad = apply_op(t["op2"], t["b0"], t["k2"])
+
+    def t_items(tail_off):
+        return dispatcher([("setUp()", "S"), ("invariant_ok()", "I")]) + [
+            ("label", "S"), "POP",
+            ("pushn", 2, len(c_cr)), ("pushn", 2, tail_off), "PUSH0", "CODECOPY",
+            ("pushn", 2, len(c_cr)), "PUSH0", "PUSH0", "CREATE", "PUSH0", "SSTORE", "STOP",
+            ("label", "I"), "POP",
+            ("pushn", 32, sel_int("get()") << 224), "PUSH0", "MSTORE",
+            ("push", 32), "PUSH0", ("push", 4), "PUSH0", "PUSH0", "SLOAD", "GAS", "STATICCALL", "POP",
+            "PUSH0", "MLOAD", ("pushn", 32, bad), "EQ", ("ref", "FAIL"), "JUMPI", "STOP",
+            ("label", "FAIL")] + panic_items(1) + [("raw", c_cr)]
+
+    off = len(assemble(t_items(0))) - len(c_cr)
+    t_rt = assemble(t_items(off))
+    assert t_rt[off:] == c_cr
+    return [Contract("T", [("setUp", []), ("invariant_ok", [])], t_rt),
+            Contract("C", [("set", ["uint256", "uint256"], ["a", "b"]), ("get", [])], c_rt, creation=c_cr, path="src/C.sol")]
+
+
+def gen_inv_scenarios(tier, r):
+    out = []
+    for i in range(1 if tier == "quick" else 6):
+        op, op2 = r.choice(["eq", "xor", "add"]), r.choice(["eq", "eq", "xor"])
+        out.append({"op": op, "k": r.randrange(1, 1 << 256) if op != "eq" else 0, "a0": r.randrange(1, 1 << 256),
+                    "op2": op2, "k2": r.randrange(1, 1 << 256) if op2 != "eq" else 0, "b0": r.randrange(1, 1 << 256),
+                    "solver": ["z3", "yices"][i % 2]})
+    return out
+
+
+def inv_replay(t, vals):
+    """concrete execution of C.set(a, b); T.invariant_ok() for the reported inputs (an input the
+    model leaves out is a don't-care: 0) -> True iff the assertion fails"""
+    a, b = vals.get("a", 0), vals.get("b", 0)
+    stored = apply_op(t["op2"], b, t["k2"]) if apply_op(t["op"], a, t["k"]) == apply_op(t["op"], t["a0"], t["k"]) else 0
+    return stored == apply_op(t["op2"], t["b0"], t["k2"])
+
+
+def run_inv_scenario(t, timeout=150):
+    prj = Project(inv_contracts(t))
+    try:
+        res = prj.run(["--invariant-depth", "1", "--solver", t["solver"]], timeout=timeout)
+        rec = res.records.get("invariant_ok()")
+        ms = []
+        for mdl in ((rec or {}).get("models") or []):
+            vals = {v["variable_name"]: v["value"] for v in (mdl.get("model") or {}).values()}
+            ms.append({"valid": bool(mdl.get("is_valid")), "vals": vals, "names": sorted(mdl.get("model") or {})})
+        return {"rc": res.rc, "status": res.status("invariant_ok()"), "models": ms,
+                "error": None if res.json is not None else (res.err or res.out)[-600:]}
+    finally:
+        prj.cleanup()
